@@ -450,28 +450,24 @@ where
                 A::default_or_panic(),
             ),
             ChunkClass::NonDummy(mut chunk) => {
-                let original_chunk = chunk;
-
+                // The current chunk is only changed once a chunk that fits has been found or created. A failed
+                // allocation, whether it is reported by an error or by an unwinding panic (capacity overflow),
+                // leaves the bump allocator in the chunk it was in. `Mut*` collections rely on this: their prepared
+                // allocation lives in that chunk and `allocate_prepared*` sets the position of the *current* chunk.
                 while let Some(next_chunk) = chunk.next() {
                     chunk = next_chunk;
 
                     // We don't reset the chunk position when we leave a scope, so we need to do it here.
                     chunk.reset();
 
-                    self.chunk.set(chunk.raw);
-
                     if let Some(ptr) = f(chunk.raw, layout) {
+                        self.chunk.set(chunk.raw);
                         return Ok(ptr);
                     }
                 }
 
                 // there is no chunk that fits, we need a new chunk
-                chunk.append_for(*layout).inspect_err(|_| {
-                    // The allocation failed. Stay in the chunk we were in, so a failed allocation leaves the
-                    // bump allocator as it was. `Mut*` collections rely on this: their prepared allocation
-                    // lives in that chunk and `allocate_prepared*` sets the position of the *current* chunk.
-                    self.chunk.set(original_chunk.raw);
-                })
+                chunk.append_for(*layout)
             }
         }?;
 
